@@ -120,7 +120,7 @@ var keywords = map[string]bool{
 	"func": true, "spec": true, "axiom": true, "ghost": true, "lemma": true, "package": true,
 	"requires": true, "ensures": true, "let": true, "modifies": true, "nopanic": true, "overflow": true,
 	"loop": true, "invariant": true, "decreases": true, "trusted": true, "props": true, "pure": true,
-	"purefn": true, "maypanic": true, "opt": true, "dispatch": true, "assume": true, "uses": true, "onalloc": true,
+	"purefn": true, "maypanic": true, "opt": true, "dispatch": true, "assume": true, "uses": true, "onalloc": true, "recvinv": true, "check": true, "defines": true,
 }
 
 type rawItem struct {
@@ -325,12 +325,25 @@ func (cs *Contracts) LoadFile(path string, pkgPath string, external bool) {
 			bodyStarted = true
 			txt := it.text
 			label := ""
-			if m := labelRe.FindStringSubmatch(txt); m != nil && (it.kw == "requires" || it.kw == "ensures" || it.kw == "invariant" || it.kw == "assume") {
+			if m := labelRe.FindStringSubmatch(txt); m != nil && (it.kw == "requires" || it.kw == "ensures" || it.kw == "invariant" || it.kw == "assume" || it.kw == "check" || it.kw == "defines") {
 				label = m[1]
 				txt = txt[len(m[0]):]
 			}
 			for _, fc := range cur {
 				switch it.kw {
+				case "recvinv":
+					// recvinv <channel variable>: <formula over elem>
+					j := strings.Index(txt, ":")
+					if j < 0 {
+						fail(it, "expected 'recvinv chan: formula'")
+						continue
+					}
+					fc.Items = append(fc.Items, Item{Kind: "recvinv", Name: strings.TrimSpace(txt[:j]), E: parse(it, txt[j+1:]), Src: txt, Line: it.line})
+				case "check":
+					fc.Items = append(fc.Items, Item{Kind: "check", Label: label, E: parse(it, txt), Src: txt, Line: it.line})
+				case "defines":
+					// a clause that defines ghost state: assumed by callers, not checked against the body
+					fc.Items = append(fc.Items, Item{Kind: "defines", Label: label, E: parse(it, txt), Src: txt, Line: it.line})
 				case "requires", "ensures", "assume":
 					if curLoop != nil && it.kw == "assume" {
 						fc.Loops[curLoop.Ord].Items = append(fc.Loops[curLoop.Ord].Items, Item{Kind: it.kw, Label: label, E: parse(it, txt), Src: txt, Line: it.line})
@@ -364,6 +377,9 @@ func (cs *Contracts) LoadFile(path string, pkgPath string, external bool) {
 					}
 				case "nopanic":
 					fc.NoPanic = true
+					if strings.TrimSpace(txt) != "" {
+						fc.Opts["nopanic_kinds"] = strings.TrimSpace(txt)
+					}
 				case "overflow":
 					fc.Overflow = true
 				case "trusted":
